@@ -122,16 +122,16 @@ const (
 type GenParams struct {
 	MinOps, MaxOps int
 	// weights (relative)
-	WKV, WCreate, WDrop, WAdd, WBatch, WImport, WDel, WMeta, WReinforce, WEvolve int
+	WKV, WCreate, WDrop, WAdd, WBatch, WImport, WDel, WMeta, WReinforce, WEvolve                  int
 	WLink, WUnlink, WConfig, WAutoLinks, WSnapshot, WRewrite, WCompress, WMaint, WFlush, WRestart int
-	InvalidPct    int  // percentage of data ops deliberately drawn invalid
-	ForceRestart  bool // append a restart at the end if none was drawn
-	AllowInt8     bool
-	AllowMemory   bool
-	AllowAutoLink bool
-	AllowText     bool
-	SmallEfC      bool // efConstruction 8 so that batches of >=8 take the parallel path
-	BigBatch      bool
+	InvalidPct                                                                                    int  // percentage of data ops deliberately drawn invalid
+	ForceRestart                                                                                  bool // append a restart at the end if none was drawn
+	AllowInt8                                                                                     bool
+	AllowMemory                                                                                   bool
+	AllowAutoLink                                                                                 bool
+	AllowText                                                                                     bool
+	SmallEfC                                                                                      bool // efConstruction 8 so that batches of >=8 take the parallel path
+	BigBatch                                                                                      bool
 }
 
 // shadow state kept by the generator only to bias towards valid / interesting ops
